@@ -148,7 +148,7 @@ def _sync(ctx):
 def _owner(ctx):
     mod = ctx.index.module(EM)
     n = 0
-    for func in mod.all_functions():
+    for func in mod.live_functions():
         for sub in K.walk_no_nested(func.node):
             if not isinstance(sub, ast.Call):
                 continue
